@@ -117,14 +117,14 @@ type Writer struct {
 }
 
 type Stats struct {
-	Cases             int            `json:"cases"`
-	Ops               int            `json:"ops"`
-	DistinctNontriv   int            `json:"distinct_nontrivial"`
-	Tags              map[string]int `json:"tags"`
-	Hist              map[string]int `json:"hist"`
-	Fails             int            `json:"fails"`
-	Samples           []string       `json:"samples"`
-	seen              map[uint64]bool
+	Cases           int            `json:"cases"`
+	Ops             int            `json:"ops"`
+	DistinctNontriv int            `json:"distinct_nontrivial"`
+	Tags            map[string]int `json:"tags"`
+	Hist            map[string]int `json:"hist"`
+	Fails           int            `json:"fails"`
+	Samples         []string       `json:"samples"`
+	seen            map[uint64]bool
 }
 
 func NewWriter(path string) *Writer {
@@ -157,6 +157,9 @@ func (t *Writer) Fail(site, sig, detail string) {
 
 // Tag marks the current case as having reached a non-trivial branch class.
 func (t *Writer) Tag(tag string) { t.tags[tag] = true; t.nontriv = true }
+
+// Note counts a branch class for the statistics without making the case count as non-trivial.
+func (t *Writer) Note(tag string) { t.tags[tag] = true }
 
 // Hist counts one occurrence in the input-distribution histogram.
 func (t *Writer) Hist(key string) { t.Stats.Hist[key]++ }
